@@ -314,7 +314,10 @@ func (s *scopedWalker) walkFn(path string, d fs.DirEntry, err error) error {
 
 	// If the status byte is zero, the file-list has terminated.
 
-	if info.Mode().IsDir() && !opts.Recurse() {
+	if info.Mode().IsDir() && !opts.Recurse() && name != "." {
+		// --dirs without --recursive: a directory is listed without its
+		// contents, except for the directory whose contents were requested
+		// (dir/ or .), which is listed with its immediate entries.
 		return filepath.SkipDir
 	}
 
